@@ -18,3 +18,4 @@ import Anonymongo.Props.Facts.Footprint
 import Anonymongo.Props.Facts.AtlasReq
 import Anonymongo.Props.Facts.Vocabulary
 import Anonymongo.Props.Facts.Regex
+import Anonymongo.Props.Facts.Cleanup
